@@ -1308,6 +1308,18 @@ static void workload_alloc_base(const char* wl) {
   else if (!strcmp(wl, "fieldfill")) {   /* many two-block objects in an arena of more than 64 blocks (MIMALLOC_ARENA_RESERVE=4GiB): claims next to and across
                                             the boundary of the 64-bit fields of the arena bitmaps, with every residue of free blocks in front of it */
                                   alloc_many(1 + (int)vf_randn(2), 100, 5000, 0); alloc_many(46, (size_t)40 << 20, ((size_t)40 << 20) + 4096, 0); alloc_many(4, (size_t)70 << 20, (size_t)90 << 20, 0); }
+  else if (!strcmp(wl, "fieldfill2")) {  /* arena of more than 64 blocks with lazy commit: a four-block object is placed across the boundary of the first bitmap field
+                                            where its first three blocks (61-63) were committed by earlier objects and its last one (64) never was */
+                                  op_alloc_ex(A_malloc, 3000, 0, 0, 0, 0);
+                                  int last2 = -1, one = -1;
+                                  for (int k = 0; k < 31; k++) last2 = op_alloc_ex(A_malloc, (size_t)40 << 20, 0, 0, 0, 0);     /* blocks 1..62 */
+                                  one = op_alloc_ex(A_malloc, (size_t)20 << 20, 0, 0, 0, 0);                                    /* block 63 */
+                                  if (last2 >= 0) op_free_slot(last2, FR_free);
+                                  if (one >= 0) op_free_slot(one, FR_free);
+                                  do_collect(0);
+                                  op_alloc_ex(A_malloc, (size_t)100 << 20, 0, 0, 0, 0);                                         /* blocks 61..64 */
+                                  op_alloc_ex(A_zalloc, (size_t)70 << 20, 0, 0, 0, 0);
+                                  alloc_many(3, (size_t)40 << 20, (size_t)90 << 20, 0); }
   else if (!strcmp(wl, "giant")) {   /* objects of many arena blocks: ranges that cross the 64-block fields of the arena bitmaps (needs MIMALLOC_ARENA_RESERVE >= 4 GiB) */
                                   alloc_many(2, (size_t)600 << 20, (size_t)700 << 20, 0); alloc_many(1, (size_t)1100 << 20, (size_t)1300 << 20, 0); alloc_many(1, (size_t)40 << 20, (size_t)70 << 20, 0); alloc_many(10, 1, 100000, 1); }
   else if (!strcmp(wl, "reuse")) {   /* memory of freed multi-block objects is purged and then re-used for ordinary segments (their headers and page tables land on
